@@ -1151,11 +1151,29 @@ def check_derived_stats(prog, rep, m, fs, entry):
                            isinstance(s_.targets[0], ast.Subscript)}
                 envl = {k_: v_ for k_, v_ in _senv([s_ for s_ in prior if not any(
                     isinstance(t_, ast.Name) and t_.id in mutated for t_ in s_.targets)]).items() if k_ not in mutated}
-                args = [norm(_inl(a, envl)).replace(' ', '').replace('"', "'") for a in c.args]
+                # what reaches each parameter: entries of ONE per-statistic table (whatever the local is called), by key
+                bound = dict(zip(t.params, c.args))
+                bound.update({k_.arg: k_.value for k_ in c.keywords if k_.arg})
+                ex = [_inl(bound[p_], envl) if p_ in bound else None for p_ in t.params]
+
+                def entry_of(e, squared=False):
+                    # (table name, key) of `table['key']`, or of `table['key'] ** 2` / `table['key'] * table['key']`
+                    if squared:
+                        if isinstance(e, ast.BinOp) and isinstance(e.op, ast.Pow) and const(e.right) == 2:
+                            return entry_of(e.left)
+                        if isinstance(e, ast.BinOp) and isinstance(e.op, ast.Mult) and norm(e.left) == norm(e.right):
+                            return entry_of(e.left)
+                        return None
+                    if isinstance(e, ast.Subscript) and isinstance(e.value, ast.Name) and isinstance(const(e.slice), str):
+                        return e.value.id, const(e.slice)
+                    return None
                 if t.name == '_dask_mean':
-                    ok = args == ["stats_dict['sum']", "stats_dict['count']"]
+                    got = [entry_of(ex[0]), entry_of(ex[1])] if len(ex) == 2 else []
+                    keys = ['sum', 'count']
                 else:
-                    ok = args == ["stats_dict['sum_squares']", "stats_dict['sum']**2", "stats_dict['count']"]
+                    got = [entry_of(ex[0]), entry_of(ex[1], squared=True), entry_of(ex[2])] if len(ex) == 3 else []
+                    keys = ['sum_squares', 'sum', 'count']
+                ok = bool(got) and all(g is not None for g in got) and [g[1] for g in got] == keys and len({g[0] for g in got}) == 1
                 n += 1
                 rep.add('Z6b', f, entry, norm(c)[:160], c.lineno, ok,
                         'derived statistics must be fed (sum_squares, sum**2, count) resp. (sum, count), in this order')
@@ -1294,7 +1312,12 @@ def check_crosstab_merge(prog, rep, m, entry):
                 num, den = norm(x.value.left.left).replace(' ', ''), norm(x.value.left.right).replace(' ', '')
                 den = alias.get(den, den)
                 tgt = norm(x.targets[0]).replace(' ', '')
-                if num == tgt and tgt.endswith('[cat]') and den == tgt[:-len('[cat]')] + '[TOTAL_COUNT]':
+                # table[k] = table[k] / table[TOTAL_COUNT] * 100 with k the variable of the enclosing loop over the categories
+                t0 = x.targets[0]
+                if num == tgt and isinstance(t0, ast.Subscript) and isinstance(t0.slice, ast.Name) and isinstance(t0.value, ast.Name) and \
+                        den == '%s[TOTAL_COUNT]' % t0.value.id and any(
+                            isinstance(lp_, ast.For) and isinstance(lp_.target, ast.Name) and lp_.target.id == t0.slice.id and
+                            any(y is x for y in ast.walk(lp_)) for lp_ in g.own_nodes()):
                     found = True
         n += 1
         rep.add('Z8-pct', g, entry, '%s: percentage = count / total * 100' % fn, g.node.lineno, found,
@@ -1404,10 +1427,30 @@ def check_crosstab_keys(prog, rep, m, entry):
     if f is None:
         raise AnalysisIncomplete('_single_zone_crosstab_2d not found')
     # total_count appended before category selection and from the filtered values
-    tot = [s for s in f.node.body if isinstance(s, ast.Assign) and norm(s.targets[0]) == 'total_count']
-    ok = len(tot) == 1 and norm(tot[0].value) in ('zone_values.shape[0]', 'len(zone_values)', 'zone_values.size')
+    # what is appended under the TOTAL_COUNT key: the length of an array that has passed the validity filter at that point
+    from .astutil import parent_map as _pm
+    pmf = _pm(f.node)
+    f._nodata_names = nodata_params(prog, m.funcs.get('_single_zone_crosstab_2d'))
+    tot = [c for c in calls(f.node) if short(c) == 'append' and isinstance(c.func, ast.Attribute) and isinstance(c.func.value, ast.Subscript)
+           and norm(c.func.value.slice) == 'TOTAL_COUNT' and len(c.args) == 1]
+    ok = False
+    if len(tot) == 1:
+        a = tot[0].args[0]
+        if isinstance(a, ast.Name):
+            vals_ = [v_ for v_ in f.local_assigns().get(a.id, []) if isinstance(v_, ast.AST)]
+            a = vals_[0] if len(vals_) == 1 else a
+        base = None
+        if isinstance(a, ast.Subscript) and isinstance(a.value, ast.Attribute) and a.value.attr == 'shape' and const(a.slice) == 0:
+            base = a.value.value
+        elif isinstance(a, ast.Call) and short(a) == 'len' and len(a.args) == 1:
+            base = a.args[0]
+        elif isinstance(a, ast.Attribute) and a.attr == 'size':
+            base = a.value
+        if base is not None:
+            fl = filter_flags(f, pmf, tot[0], base)
+            ok = {'fin', 'ne'} <= fl
     n += 1
-    rep.add('X-total', f, entry, norm(tot[0]) if tot else 'total_count', f.node.lineno, ok,
+    rep.add('X-total', f, entry, norm(tot[0]) if tot else 'append under TOTAL_COUNT', f.node.lineno, ok,
             'the percentage base is the number of valid cells of the zone, counted before any category selection')
     # the break vector is the stride routine applied to the sorted valid values and ALL categories
     bnames = [t.id for s_ in f.own_nodes() if isinstance(s_, ast.Assign) and isinstance(s_.value, ast.Call) and
@@ -1486,18 +1529,23 @@ def check_crosstab_keys(prog, rep, m, entry):
                     'layer j of the 3-D values belongs to unique_cats[j]: the layer index must come from enumerating '
                     'ALL categories (unique_cats), selecting by membership in cat_ids - enumerating the selection '
                     'pairs a category with the wrong layer')
+        cat_loops = [lp_ for lp_ in g.node.body if isinstance(lp_, ast.For) and isinstance(lp_.target, ast.Tuple) and len(lp_.target.elts) == 2]
         for c in calls(g.node):
             if short(c) == 'append':
-                okk = isinstance(c.args[0], ast.Call) and norm(c.args[0].func) == g.params[-1] and \
-                    norm(c.func.value).endswith('[cat]')
+                # stored under the category of the enclosing loop: table[<category variable>].append(stats_func(..))
+                lp_ = next((x for x in cat_loops if any(y is c for y in ast.walk(x))), None)
+                okk = isinstance(c.args[0], ast.Call) and norm(c.args[0].func) == g.params[-1] and lp_ is not None and \
+                    isinstance(c.func.value, ast.Subscript) and norm(c.func.value.slice) == norm(lp_.target.elts[1])
                 n += 1
                 rep.add('X-key', g, entry, norm(c), c.lineno, okk,
                         'each 3-D entry is the chosen aggregate of that layer\'s valid cells in the zone')
         for s in g.own_nodes():
-            if isinstance(s, ast.Assign) and norm(s.targets[0]) == 'zone_cat_data' and isinstance(s.value, ast.Subscript) \
-                    and not isinstance(s.value.slice, ast.BinOp):
+            if isinstance(s, ast.Assign) and isinstance(s.targets[0], ast.Name) and isinstance(s.value, ast.Subscript) \
+                    and isinstance(s.value.value, ast.Name) and s.value.value.id == g.params[0] and isinstance(s.value.slice, (ast.Name, ast.Constant)):
+                # the layer taken from the zone's values: indexed by the position of the enclosing loop over ALL categories
+                lp_ = next((x for x in cat_loops if any(y is s for y in ast.walk(x))), None)
                 n += 1
-                rep.add('X-key', g, entry, norm(s), s.lineno, norm(s.value) == 'zone_values[j]',
+                rep.add('X-key', g, entry, norm(s), s.lineno, lp_ is not None and norm(s.value.slice) == norm(lp_.target.elts[0]),
                         'layer j of the zone\'s values belongs to category j')
     cn = _view(prog, m.funcs.get('_crosstab_numpy'))
     if cn is not None:
